@@ -46,6 +46,7 @@ pub fn run_sweep_with(
     let n = n_edges(pa, pb);
     hooks::begin_call();
     hooks::set_budget(8 * event_bound(n));
+    let _watch = crate::watch::enter_call(pa, pb, op, Ft::F64);
     catch_unwind(AssertUnwindSafe(|| {
         let mut sb = BoundingBox {
             min: Coord { x: inf, y: inf },
